@@ -251,7 +251,7 @@ pub fn run(a: &Args) {
             }
             if rng.chance(3, 5) {
                 // mostly short; now and then larger than any internal chunk size a stream wrapper might use (4 KiB, 8 KiB)
-                let len = match rng.below(40) { 0..=5 => 1, 6..=11 => 2, 12..=17 => 17, 18 => 4096, 19 => 4097, 20 => 5000, 21 => 8193, 22 => 10_000, _ => rng.range(1, max_len) as usize };
+                let len = match rng.below(80) { 0..=11 => 1, 12..=23 => 2, 24..=35 => 17, 36 => *rng.pick(&[4096usize, 4097, 5000, 8193, 10_000]), _ => rng.range(1, max_len) as usize };
                 let plain = rng.bytes(len);
                 if rng.chance(1, 6) {
                     // vectored: 1–4 slices (some empty), one byte accepted per poll, a few Pendings
